@@ -87,6 +87,7 @@ package py
 //@ ghost opcall object local
 //@ ghost opat int local
 //@ ghost opcnt int local
+//@ ghost opres int local
 
 //@ func (*Code).Addr2Line(co, addrq) (line)
 //@   trusted
@@ -136,6 +137,7 @@ package py
 //@   traced 48
 //@   requires nn: obj != nil
 //@   modifies *
+//@   modifies lasterr[0]
 //@   ensures tupleok: is(obj, Tuple) ==> err == nil
 //@   ensures fail: nextFailed() ==> err == lasterr[0]
 //@   ensures stop: nextStopped() ==> err == nil
@@ -294,3 +296,174 @@ package py
 //@ func (*StaticMethod).M__get__(c, instance, owner) (r, err)
 //@   pure
 //@   ensures plain: err == nil && r == c.Callable
+
+// ---- frames for calls (C04) ----
+
+//@ spec codeSizes(code *Code) bool = code.Nlocals >= 0 && code.Nlocals <= 65535 && code.Stacksize >= 0
+
+//@ func NewFrame(ctx, globals, locals, code, closure) (f)
+//@   ensures fresh: f != nil && fresh(f) && f.Code == code && f.Globals == globals
+//@   ensures plus: codeSizes(code) ==> len(f.Localsplus) == code.Nlocals + len(code.Cellvars) + len(code.Freevars) && (len(f.Localsplus) > 0 ==> fresh(f.Localsplus)) && off(f.Localsplus) == 0
+//@   ensures empty: codeSizes(code) ==> (forall k in [0, len(f.Localsplus)): f.Localsplus[k] == nil)
+//@   ensures blocks: len(f.Blockstack) == 0 && f.Block == nil
+//@   ensures cells: codeSizes(code) ==> ref(f.CellAndFreeVars) == ref(f.Localsplus) && off(f.CellAndFreeVars) == code.Nlocals && len(f.CellAndFreeVars) == len(code.Cellvars) + len(code.Freevars)
+
+//@ iface Context.Store(self) (r)
+//@   pure
+//@   ensures nn: r != nil
+
+// ---- calls of callables implemented in Go (C04): what the native function receives ----
+// Calls through a function value are addressed as @dyn#k (k-th such call of the function in source order); arg(k) is
+// the k-th actual argument of the call a clause is attached to.
+
+//@ func (*BoundMethod).M__call__(bm, args, kwargs) (r, err)
+//@   requires nn: bm != nil && bm.Method != nil
+//@   modifies *
+//@   callsite (*py.Method).CallWithKeywords native: kwargs != nil && arg(0) == bm.Method.(*Method) && arg(1) == bm.Self && arg(2) == args && arg(3) == kwargs
+//@   callsite (*py.Method).Call native: kwargs == nil && arg(0) == bm.Method.(*Method) && arg(1) == bm.Self && arg(2) == args
+//@   callsite py.Call inject: arg(0) == bm.Method && len(arg(1)) == len(args) + 1 && arg(1)[0] == bm.Self && (forall i in [0, len(args)): arg(1)[i + 1] == args[i]) && arg(2) == kwargs
+
+//@ func (*Method).M__call__(m, args, kwargs) (r, err)
+//@   requires nn: m != nil
+//@   modifies *
+//@   callsite (*py.Method).CallWithKeywords module: kwargs != nil && arg(0) == m && is(arg(1), *Module) && arg(1).(*Module) == m.Module && arg(2) == args && arg(3) == kwargs
+//@   callsite (*py.Method).Call module: kwargs == nil && arg(0) == m && is(arg(1), *Module) && arg(1).(*Module) == m.Module && arg(2) == args
+
+//@ func (*Method).Call(m, self, args) (r, err)
+//@   requires nn: m != nil
+//@   modifies *
+//@   callsite @dyn#1 args: arg(0) == self && arg(1) == args
+//@   callsite @dyn#2 kwargs: arg(0) == self && arg(1) == args && arg(2) != nil && (forall k string: !has(arg(2), k))
+//@   callsite @dyn#3 noargs: arg(0) == self && len(args) == 0
+//@   callsite @dyn#4 onearg: arg(0) == self && len(args) == 1 && arg(1) == args[0]
+
+//@ func (*Method).CallWithKeywords(m, self, args, kwargs) (r, err)
+//@   requires nn: m != nil
+//@   modifies *
+//@   callsite (*py.Method).Call nokw: len(kwargs) == 0 && arg(0) == m && arg(1) == self && arg(2) == args
+//@   callsite @dyn#1 kwargs: len(kwargs) != 0 && arg(0) == self && arg(1) == args && arg(2) == kwargs
+
+//@ func checkNumberOfArgs(name, nargs, nresults, min, max) (err)
+//@   ensures bad: (nargs < min || nargs > max || nargs > nresults) <==> err != nil
+//@   ensures te: err != nil ==> raisesExc(err, TypeError)
+
+//@ func UnpackTuple(args, kwargs, name, min, max, results) (err)
+//@   requires nn: forall i in [0, len(results)): results[i] != nil
+//@   requires distinct: forall i in [0, len(results)): forall j in [0, len(results)): i != j ==> results[i] != results[j]
+//@   modifies cells(Object)
+//@   ensures kw: len(kwargs) != 0 ==> raisesExc(err, TypeError)
+//@   ensures arity: len(kwargs) == 0 && (len(args) < min || len(args) > max || len(args) > len(results)) ==> raisesExc(err, TypeError)
+//@   ensures bound: len(kwargs) == 0 && min <= len(args) && len(args) <= max && len(args) <= len(results) ==> err == nil && (forall i in [0, len(args)): deref(results[i]) == args[i])
+//@   ensures rest: forall i in [len(args), len(results)): deref(results[i]) == old(deref(results[i]))
+//@   loop 1 (rangeindex)
+//@     invariant idx: 0 - 1 <= rangeindex && rangeindex < len(args)
+//@     invariant done: forall k in [0, rangeindex + 1): deref(results[k]) == args[k]
+//@     invariant rest: forall k in [rangeindex + 1, len(results)): deref(results[k]) == old(deref(results[k]))
+
+//@ func parseFormat(format, in) (min, name, kwOnly_i, ops)
+//@   trusted
+//@   ensures shape: 0 <= min && min <= len(ops) && 0 <= kwOnly_i && len(ops) <= 65535
+
+//@ func ParseTupleAndKeywords(args, kwargs, format, kwlist, results) (err)
+//@   abstractfloat
+//@   requires nn: forall i in [0, len(results)): results[i] != nil
+//@   modifies cells(Object)
+//@   ensures twice: (exists i in [0, imin(len(args), len(kwlist))): has(kwargs, kwlist[i]) && kwargs[kwlist[i]] != nil) ==> err != nil
+//@   ensures unknown: (exists k string: has(kwargs, k) && (forall j in [0, len(kwlist)): kwlist[j] != k)) ==> err != nil
+//@   ensures te: err != nil ==> raisesExc(err, TypeError)
+//@   loop 1
+//@     invariant known: forall k string: visited(k) ==> (exists j in [0, len(kwlist)): kwlist[j] == k)
+//@   loop 2 (rangeindex)
+//@     invariant known: forall k string: visited(k) && k != kwargName ==> (exists j in [0, len(kwlist)): kwlist[j] == k)
+//@     invariant rng: 0 - 1 <= rangeindex && rangeindex < len(kwlist)
+//@     invariant nomatch: forall j in [0, rangeindex + 1): kwlist[j] != kwargName
+//@   loop 3 (rangeindex)
+//@     invariant rng: 0 - 1 <= rangeindex && rangeindex < len(ops)
+//@     invariant once: forall j in [0, rangeindex + 1): j < len(args) && j < len(kwlist) ==> !(has(kwargs, kwlist[j]) && kwargs[kwlist[j]] != nil)
+
+//@ func SequenceContains(seq, obj) (found, err)
+//@   requires nn: seq != nil
+//@   modifies *
+//@   modifies lasterr[0]
+//@   ensures fail: nextFailed() ==> err == lasterr[0]
+
+// ---- consumers of Iterate: an error of the producer other than StopIteration reaches the caller (C05) ----
+
+//@ func SequenceTuple(v) (r, err)
+//@   requires nn: v != nil
+//@   modifies *
+//@   modifies lasterr[0]
+//@   ensures fail: nextFailed() ==> err == lasterr[0]
+
+//@ func SequenceSet(v) (r, err)
+//@   requires nn: v != nil
+//@   modifies *
+//@   modifies lasterr[0]
+//@   ensures fail: nextFailed() ==> err == lasterr[0]
+//@   ensures fresh: err == nil ==> r != nil && fresh(r)
+
+//@ spec sameSeq(a []Object, b []Object) bool = len(a) == len(b) && (forall q in [0, len(a)): a[q] == b[q])
+
+//@ func SequenceList(v) (r, err)
+//@   requires nn: v != nil
+//@   pureif is(v, Tuple) || is(v, *List)
+//@   modifies *
+//@   modifies lasterr[0]
+//@   ensures freshitems: (is(v, Tuple) || is(v, *List)) && len(r.Items) > 0 ==> fresh(r.Items)
+//@   ensures tuple: is(v, Tuple) ==> err == nil && sameSeq(r.Items, v.(Tuple))
+//@   ensures list: is(v, *List) ==> err == nil && sameSeq(r.Items, old(v.(*List).Items))
+//@   ensures fail: nextFailed() ==> err == lasterr[0]
+//@   ensures fresh: err == nil ==> r != nil && fresh(r)
+
+//@ func BytesFromObject(x) (r, err)
+//@   requires nn: x != nil
+//@   modifies *
+//@   modifies lasterr[0]
+//@   ensures fail: nextFailed() ==> err == lasterr[0]
+
+// ---- C3 linearisation input (C16): the lists handed to pmerge are the parents' MROs in order of the bases, followed
+// by the list of bases itself ----
+
+//@ func check_duplicates(list) (err)
+//@   requires nn: list != nil
+//@   ensures te: err != nil ==> raisesExc(err, TypeError)
+
+//@ func (*Type).mro_implementation(t) (r, err)
+//@   requires nn: t != nil && t.Dict != nil && len(t.Bases) < 1000000
+//@   requires bases: forall k in [0, len(t.Bases)): is(t.Bases[k], *Type) && t.Bases[k].(*Type) != nil
+//@   modifies *
+//@   callsite pmerge last: len(arg(1).Items) == n + 1 && is(arg(1).Items[n], *List) && arg(1).Items[n].(*List) == bases_aslist
+//@   callsite pmerge parents: forall k in [0, n): is(arg(1).Items[k], *List) && len(arg(1).Items[k].(*List).Items) == len(bases[k].(*Type).Mro)
+//@   callsite pmerge bases: sameSeq(bases_aslist.Items, bases)
+//@   callsite pmerge acc: len(arg(0).Items) == 1 && is(arg(0).Items[0], *Type) && arg(0).Items[0].(*Type) == t && arg(0) != arg(1)
+//@   loop 1 (rangeindex)
+//@     invariant rng: 0 - 1 <= rangeindex && rangeindex < n && n == len(bases) && bases == old(t.Bases)
+//@     invariant bs: forall k in [0, n): is(bases[k], *Type)
+//@     invariant tm: to_merge != nil && allocatedAfter(to_merge) && len(to_merge.Items) == n + 1 && allocatedAfter(to_merge.Items)
+//@     invariant pl: forall k in [0, rangeindex + 1): is(to_merge.Items[k], *List) && allocatedAfter(to_merge.Items[k].(*List))
+//@     invariant pd: forall k in [0, rangeindex + 1): len(to_merge.Items[k].(*List).Items) > 0 ==> ref(to_merge.Items[k].(*List).Items) != ref(to_merge.Items)
+//@     invariant parents: forall k in [0, rangeindex + 1): len(to_merge.Items[k].(*List).Items) == len(bases[k].(*Type).Mro)
+
+// ---- set construction always yields a new object (C17): set(s) is a copy ----
+
+//@ func NewSet() (s)
+//@   ensures fresh: s != nil && fresh(s)
+
+//@ func NewSetWithCapacity(n) (s)
+//@   ensures fresh: s != nil && fresh(s) && s.items != nil && fresh(s.items)
+
+//@ func NewSetFromItems(items) (s)
+//@   ensures fresh: s != nil && fresh(s)
+//@   loop 1 (rangeindex)
+//@     invariant rng: 0 - 1 <= rangeindex && rangeindex < len(items)
+//@     invariant obj: s != nil && allocatedAfter(s) && s.items != nil && allocatedAfter(s.items)
+
+//@ func SetNew(metatype, args, kwargs) (r, err)
+//@   modifies *
+//@   ensures fresh: err == nil ==> is(r, *Set) && fresh(r.(*Set))
+
+// ---- attribute lookup order (C16) ----
+
+//@ iface IGetDict.GetDict(self) (r)
+//@   traced 49
+//@   pure
